@@ -15,7 +15,7 @@
 # baseline report (diff > baseline diff, or a clause that the baseline does not show), to save time in sweeps.
 # Cores: GOMAXPROCS (default 2) bounds the harness workers; the go build runs with -p $GOMAXPROCS.
 set -u
-cd "$(dirname "$0")/.."
+cd "$(dirname "$0")"; while [ ! -x ./check ] && [ "$PWD" != / ]; do cd ..; done
 V=$PWD
 REPO=${VERIF_REPO:-/repo}
 SEED=${VERIF_SEED:-1}
@@ -60,7 +60,7 @@ if [ -z "$ex" ]; then
   fi
 fi
 
-detected() { [ -n "${STOP_ON_DETECT:-}" ] && python3 $V/tools/eo_summary.py detected "$STOP_ON_DETECT" "$1"; }
+detected() { [ -n "${STOP_ON_DETECT:-}" ] && python3 $V/tools/mutsweep/eo_summary.py detected "$STOP_ON_DETECT" "$1"; }
 
 for spec in $SPEC; do
   IFS=: read E N ENUMS <<< "$spec"
@@ -96,7 +96,7 @@ for spec in $SPEC; do
   if ! timeout $CASE_TIMEOUT $M $E < $W/eo/$E.txt > $W/eo/$E.out 2> $W/eo/$E.merr; then fatal="${fatal:+$fatal,}model-failed"; fi
   nl=$(wc -l < $W/eo/$E.txt); ml=$(wc -l < $W/eo/$E.out)
   [ "$nl" = "$n" ] && [ "$ml" = "$n" ] || fatal="${fatal:+$fatal,}lines:$n/$nl/$ml"
-  line=$(python3 $V/tools/eo_summary.py line $W/eo/$E.txt $W/eo/$E.out $E $n "$fatal" 2> $W/eo/$E.diffs)
+  line=$(python3 $V/tools/mutsweep/eo_summary.py line $W/eo/$E.txt $W/eo/$E.out $E $n "$fatal" 2> $W/eo/$E.diffs)
   out "$line"
   if detected "$line"; then out "stopped-after $E"; finish 0; fi
 done
